@@ -31,5 +31,10 @@ macro_rules! proof {
 pub mod kit;
 pub mod stubs;
 
+pub mod unit;
 pub mod fam_fut;
 pub mod fam_stream;
+#[cfg(feature = "alloc")]
+pub mod fam_costream;
+#[cfg(feature = "alloc")]
+pub mod fam_group;
